@@ -1,7 +1,8 @@
 /-
   Props/C18.lean — property C18 (position part): changing the minimum alignment keeps the bump
   position aligned.  `align_to::<N>` (entry of `aligned`, `scoped_aligned`, `with_settings`),
-  `BumpAlignGuard::drop` (exit of a lowering `aligned`), `reset_to` (exit of `scoped_aligned`),
+  `BumpAlignGuard::drop` (exit of a lowering `aligned`: the current chunk AND, since the repair of finding
+  C18-e, the chunk the guard was created in), `reset_to` (exit of `scoped_aligned`),
   the position after every allocation, and the runtime checks of `with_settings`.
 
   Theorems are about the frozen model (`Arena/Model.lean`, `Arena/Step.lean`); the invariant
@@ -84,7 +85,10 @@ example : ∃ s', alignTo exCfg exState 16 = .ok s' := alignTo_noFault exCfg_ok 
 
 /-- When a lowering `aligned::<N>` region ends (also by unwinding: the guard's `drop` runs) the position
     is again a multiple of the outer minimum alignment, inside the content range, moved by less than
-    `outer` bytes towards the free side only. -/
+    `outer` bytes towards the free side only.  (`alignGuardDrop` is the first half of the guard's `drop`,
+    `align_chunk(current)`; the second half `alignChunkAt` — the chunk the guard STARTED in, when that is another
+    chunk — does not touch the current chunk: `alignGuard_drop_position` below is the same statement for the
+    whole `drop`.) -/
 theorem alignGuardDrop_position (hc : CfgOK cfg) (h : GeomInv cfg s) {outer : Nat} (hn : MinAlignOK outer)
     {s' : State} (he : alignGuardDrop cfg s outer = .ok s') {i : Nat} (hcur : s.cur = .chunk i) :
     ∃ c, s.chunks[i]? = some c ∧ s'.cur = .chunk i ∧ outer ∣ curPos cfg s' ∧
@@ -116,6 +120,88 @@ theorem alignGuardDrop_outer_minAlign (hc : CfgOK cfg) (h : GeomInv cfg s) {oute
 
 example : ∃ s', alignGuardDrop exCfg exState 16 = .ok s' :=
   C10.alignGuardDrop_noFault exCfg_ok exState_inv (by unfold MinAlignOK; omega)
+
+/-- Second half of `BumpAlignGuard::drop` (`if self.start.header != current.header { align_chunk(self.start) }`,
+    added with the repair of finding C18-e): the chunk `j` that was current when the guard was created — the
+    chunk a scope still points at when the region ran on a by-value copy of it that moved on to another
+    chunk — is re-aligned too.  Afterwards its position is a multiple of the outer minimum alignment (when it IS
+    the current chunk nothing is done: `alignGuardDrop` has aligned it, hypothesis `hal`), it lies in the content
+    range and has moved by less than `outer` bytes towards the free side only (no handed-out byte is given
+    away); every other chunk, in particular the current one, and the choice of the current chunk are untouched.
+    So AT `alignedExit` THE POSITION OF ONE CHUNK OTHER THAN THE CURRENT ONE MAY MOVE UP (DOWN for downwards
+    bumping) BY LESS THAN `outer` BYTES. -/
+theorem alignChunkAt_position (hc : CfgOK cfg) (h : GeomInv cfg s) {outer : Nat} (hn : MinAlignOK outer)
+    {j : Nat} {c : Chunk} (hj : s.chunks[j]? = some c) (hal : s.cur = .chunk j → outer ∣ c.pos)
+    {s' : State} (he : alignChunkAt cfg s outer (.chunk j) = .ok s') :
+    ∃ c', s'.chunks[j]? = some c' ∧ outer ∣ c'.pos ∧ c'.base = c.base ∧ c'.size = c.size ∧
+      c.contentStart cfg ≤ c'.pos ∧ c'.pos ≤ c.contentEnd cfg ∧
+      (if cfg.up then c.pos ≤ c'.pos ∧ c'.pos < c.pos + outer else c'.pos ≤ c.pos ∧ c.pos < c'.pos + outer) ∧
+      (∀ k, k ≠ j → s'.chunks[k]? = s.chunks[k]?) ∧ s'.cur = s.cur ∧ curPos cfg s' = curPos cfg s := by
+  have hw := h.chunks j c hj
+  have hnp := hn.pos
+  suffices hx : ∃ c', s'.chunks[j]? = some c' ∧ outer ∣ c'.pos ∧ c'.base = c.base ∧ c'.size = c.size ∧
+      c.contentStart cfg ≤ c'.pos ∧ c'.pos ≤ c.contentEnd cfg ∧
+      (if cfg.up then c.pos ≤ c'.pos ∧ c'.pos < c.pos + outer else c'.pos ≤ c.pos ∧ c.pos < c'.pos + outer) ∧
+      (∀ k, k ≠ j → s'.chunks[k]? = s.chunks[k]?) by
+    obtain ⟨c', h1, h2, h3, h4, h5, h6, h7, h8⟩ := hx
+    exact ⟨c', h1, h2, h3, h4, h5, h6, h7, h8, alignChunkAt_cur_eq he, curPos_alignChunkAt he⟩
+  by_cases hcur : s.cur = .chunk j
+  · have : s' = s := by
+      unfold alignChunkAt at he
+      simp only [if_pos hcur, r_pure] at he
+      cases he; rfl
+    subst this
+    refine ⟨c, hj, hal hcur, rfl, rfl, hw.pos_ge, hw.pos_le, ?_, fun _ _ => rfl⟩
+    split <;> omega
+  · have hs' : s' = setPos s j (alignPos cfg.up outer c.pos) := by
+      unfold alignChunkAt at he
+      simp only [if_neg hcur, hj, r_pure, r_ok_bind, hw.align_pos_eq hc hn hw.pos_le, liftM_ok] at he
+      cases he; rfl
+    subst hs'
+    have hmem := hw.alignPos_mem hc hn hw.pos_ge hw.pos_le
+    refine ⟨{ c with pos := alignPos cfg.up outer c.pos }, by rw [setPos_getElem?, if_pos rfl, hj]; rfl,
+      alignPos_dvd _ _ _, rfl, rfl, hmem.1, hmem.2, ?_, fun k hk => by rw [setPos_getElem?, if_neg (Ne.symm hk)]⟩
+    show if cfg.up then c.pos ≤ alignPos cfg.up outer c.pos ∧ alignPos cfg.up outer c.pos < c.pos + outer
+      else alignPos cfg.up outer c.pos ≤ c.pos ∧ c.pos < alignPos cfg.up outer c.pos + outer
+    unfold alignPos
+    cases cfg.up
+    · simp only [Bool.false_eq_true, ↓reduceIte]
+      exact ⟨Lemmas.downAlign_le _ _, Lemmas.lt_downAlign_add _ hnp⟩
+    · simp only [↓reduceIte]
+      exact ⟨Lemmas.le_upAlign _ hnp, Lemmas.upAlign_lt _ hnp⟩
+
+/-- non-vacuity of `alignChunkAt_position`: chunk 1 of the example arena while chunk 0 is current -/
+example : exState.chunks[1]? = some exChunk2 ∧ (exState.cur = .chunk 1 → 16 ∣ exChunk2.pos) ∧
+    ∃ s', alignChunkAt exCfg exState 16 (.chunk 1) = .ok s' :=
+  ⟨rfl, fun h => by simp [exState] at h, C10.alignChunkAt_noFault exCfg_ok exState_inv (by unfold MinAlignOK; omega) _⟩
+
+/-- `alignGuardDrop_position` for the WHOLE `BumpAlignGuard::drop` (`alignGuardDrop`, then `alignChunkAt` for the
+    chunk `st` the guard started in): the current position ends as a multiple of the outer minimum alignment,
+    inside the content range, moved by less than `outer` bytes towards the free side only; and the state with
+    the outer minimum alignment satisfies the geometry invariant. -/
+theorem alignGuard_drop_position (hc : CfgOK cfg) (h : GeomInv cfg s) {outer : Nat} (hn : MinAlignOK outer) {st : Cur}
+    {s1 s' : State} (he1 : alignGuardDrop cfg s outer = .ok s1) (he2 : alignChunkAt cfg s1 outer st = .ok s')
+    {i : Nat} (hcur : s.cur = .chunk i) :
+    (∃ c, s.chunks[i]? = some c ∧ s'.cur = .chunk i ∧ outer ∣ curPos cfg s' ∧
+      c.contentStart cfg ≤ curPos cfg s' ∧ curPos cfg s' ≤ c.contentEnd cfg ∧
+      (if cfg.up then c.pos ≤ curPos cfg s' ∧ curPos cfg s' < c.pos + outer
+       else curPos cfg s' ≤ c.pos ∧ c.pos < curPos cfg s' + outer)) ∧
+    GeomInv cfg { s' with minAlign := outer } := by
+  obtain ⟨c, h1, h2, h3⟩ := alignGuardDrop_position hc h hn he1 hcur
+  obtain ⟨g1, g2, _⟩ := C10.alignGuardDrop_inv hc h hn he1
+  refine ⟨⟨c, h1, (alignChunkAt_cur_eq he2).trans h2, ?_⟩, (C10.alignChunkAt_inv hc g1 hn he2).2.1 g2⟩
+  rw [curPos_alignChunkAt he2]; exact h3
+
+/-- the whole `drop` never faults -/
+theorem alignGuard_drop_noFault (hc : CfgOK cfg) (h : GeomInv cfg s) {outer : Nat} (hn : MinAlignOK outer) (st : Cur) :
+    ∃ s1 s', alignGuardDrop cfg s outer = .ok s1 ∧ alignChunkAt cfg s1 outer st = .ok s' := by
+  obtain ⟨s1, e1⟩ := C10.alignGuardDrop_noFault hc h hn
+  obtain ⟨s', e2⟩ := C10.alignChunkAt_noFault hc (C10.alignGuardDrop_inv hc h hn e1).1 hn st
+  exact ⟨s1, s', e1, e2⟩
+
+/-- non-vacuity: a guard created in chunk 1 of the example arena and dropped while chunk 0 is current -/
+example : ∃ s1 s', alignGuardDrop exCfg exState 16 = .ok s1 ∧ alignChunkAt exCfg s1 16 (.chunk 1) = .ok s' :=
+  alignGuard_drop_noFault exCfg_ok exState_inv (by unfold MinAlignOK; omega) _
 
 /-! ## `reset_to` -/
 
